@@ -36,13 +36,15 @@ def indent (pre s : Bytes) : Bytes :=
   if pre.isEmpty || s.isEmpty then s else join pre ([] :: lines s)
 
 /-- `actualWrittenSize(underlay, prefix, lines)` (after the fix of the partial-line case):
-`first` is true for element 0, which no prefix precedes. -/
-def written (prefix_ : Nat) : (first : Bool) → (remain : Int) → List Bytes → (actual : Nat) → Nat
+`first` is true for element 0, which no prefix precedes.  `remain` and `actual` are signed, as the
+Go `int`s are (`remain -= prefix` may go below zero), and so is the result: that it is never
+negative is a theorem (`Props.C20.write_short_count`), not a consequence of the type. -/
+def written (prefix_ : Nat) : (first : Bool) → (remain : Int) → List Bytes → (actual : Int) → Int
   | _, _, [], actual => actual
   | first, remain, line :: rest, actual =>
     let remain := if first then remain else remain - prefix_
     if remain ≤ 0 then actual
-    else if remain ≤ line.length then actual + remain.toNat
+    else if remain ≤ line.length then actual + remain
     else written prefix_ false (remain - line.length) rest (actual + line.length)
 
 /-- The underlying writer: `none` takes everything and reports success; `some k` takes the
@@ -53,7 +55,7 @@ structure WriteOut where
   partial_ : Bool      -- writer state afterwards
   handed : Bytes       -- what the underlying writer was handed
   reached : Bytes      -- what it took
-  n : Nat              -- count returned to the caller
+  n : Int              -- count returned to the caller (a Go `int`)
   err : Bool
   deriving Repr, DecidableEq
 
@@ -74,7 +76,7 @@ def write (pre : Bytes) (partial_ : Bool) (buf : Bytes) (u : Under) : WriteOut :
 /-- A sequence of Write calls on one writer; stops being interesting after an error but the Go
 writer keeps its state, so we simply continue. Returns everything that reached the underlying
 writer, and the per-call results. -/
-def writes (pre : Bytes) : Bool → List (Bytes × Under) → Bytes × List (Nat × Bool)
+def writes (pre : Bytes) : Bool → List (Bytes × Under) → Bytes × List (Int × Bool)
   | _, [] => ([], [])
   | p, (buf, u) :: rest =>
     let o := write pre p buf u
